@@ -35,7 +35,8 @@ ASSUMPTIONS = []
 def cases(rng, tier):
     out = []
     for i in range(2500 if tier == "quick" else 40000):
-        out.append({"prog": proggen.gen_program(rng, rng.randint(1, 10), chain=(i % 4 == 3)), "variant": rng.randint(0, 29)})
+        prog = proggen.gen_resample_program(rng) if i % 10 == 9 else proggen.gen_program(rng, rng.randint(1, 10), chain=(i % 4 == 3))
+        out.append({"prog": prog, "variant": rng.randint(0, 29)})
     return out
 
 
@@ -88,7 +89,9 @@ def lean_prog(prog):
     to the Lean machines as the observationally identical selection of all rows `x[:]`"""
     out = []
     for st in prog:
-        if st["s"] == "concat1":
+        if st["s"] == "read_meta":     # len / size / lengths are functions of the rows: the model is asked for the rows
+            out.append({"s": "read", "x": st["x"]})
+        elif st["s"] == "concat1":
             out.append({"s": "select", "x": st["x"], "idx": {"r": {"t": "slice", "a": None, "b": None, "k": None}, "c": None}})
         else:
             out.append(st)
@@ -105,6 +108,8 @@ def _conv_obs(st, j):
         return "refuse"
     if s == "read_idx":
         return [j["t"], j["v"]]
+    if s == "read_meta" and isinstance(j, list):
+        return [len(j), sum(len(r) for r in j), [len(r) for r in j]]
     return j
 
 
